@@ -459,3 +459,37 @@ def _selftest():
     o.stat("states", 1)
     o.stat("transitions", 1)
     return o
+
+
+def replay_one(p, failure):
+    """Re-executes exactly one recorded schedule of an `explore` case (no exploration): the history of
+    builds with the recorded choice sequence under the controlled pool. -> (still_fails, description)"""
+    import re as _re
+    from aotools.turbulence import slopecovariance as sc
+    if p["kind"] != "explore" or not failure.get("sub"):
+        o = evaluate(p)
+        ids = ["%s|%s" % (f["clause"], f["sub"]) for f in o.failures]
+        return ("%s|%s" % (failure["clause"], failure["sub"])) in ids, "re-evaluated whole case"
+    m = _re.match(r"sched=([0-9-]+)(?::build=(\d+))?", failure["sub"])
+    choices = [] if m.group(1) == "-" else [int(c) for c in m.group(1)]
+    ref_bits, ref_geom = _reference(p["cfg"])
+    ch = sched.Chooser(choices)
+    fake = sched.FakeMultiprocessing(ch)
+    saved = sc.multiprocessing
+    sc.multiprocessing = fake
+    res = []
+    try:
+        obj = _make(p["cfg"])
+        for t in p["hist"]:
+            obj.threads = t
+            try:
+                mtx = obj.make_covariance_matrix()
+                res.append(_bits(mtx) == ref_bits and _geom_state(obj) == ref_geom)
+            except Exception as e:
+                res.append("raised %s" % type(e).__name__)
+                break
+    finally:
+        sc.multiprocessing = saved
+    bad = [i for i, r in enumerate(res) if r is not True]
+    return bool(bad), "history threads=%s, choices=%s, completion orders=%s, per-build identical=%s" % (
+        p["hist"], choices, [od["completion"] for od in ch.orders], res)
